@@ -16,7 +16,7 @@ LEXER_BOUNDED = ('sub-lexers: lex_spaces / lex_tabs / lex_newlines (desugaring R
 PROPS = {
     'C01': dict(
         level='proof',
-        verus=['span', 'patterns', 'lexing', 'url', 'jsdoc', 'edit_distance', 'mask', 'mask_parser', 'document', 'vec_ext', 'comments', 'comments_doc'],
+        verus=['span', 'patterns', 'lexing', 'url', 'jsdoc', 'edit_distance', 'mask', 'mask_parser', 'document', 'vec_ext', 'comments', 'comments_doc', 'lhs_masker'],
         kani_quick=['lexing.whitespace_5', 'jsdoc.parse_inline_tag_4', 'jsdoc.parse_inline_tag_5'],
         rac=['lexers', 'url_scanner', 'document_tiles', 'remove_indices', 'condense_indices', 'markdown_tokens', 'comment_frontends', 'lhs_frontend', 'typst_frontend', 'rule_spans', 'lint_group_cache'],
         kani_thorough=['lexing.whitespace_5', 'lexing.whitespace_8', 'lexing.hostname_4', 'lexing.url_4',
@@ -35,7 +35,7 @@ PROPS = {
     ),
     'C02': dict(
         level='proof',
-        verus=['lexing', 'url', 'number', 'mask', 'mask_parser', 'document', 'vec_ext', 'comments', 'comments_doc'],
+        verus=['lexing', 'url', 'number', 'mask', 'mask_parser', 'document', 'vec_ext', 'comments', 'comments_doc', 'lhs_masker'],
         kani_quick=['lexing.whitespace_5'],
         kani_thorough=['lexing.whitespace_5', 'lexing.whitespace_8', 'lexing.hostname_4', 'lexing.url_4'],
         rac=['lexers', 'url_scanner', 'document_tiles', 'remove_indices', 'condense_indices', 'markdown_tokens'],
@@ -134,7 +134,7 @@ PROPS = {
     ),
     'C04': dict(
         level='exploration',
-        verus=['mask', 'mask_parser', 'comments', 'comments_doc'], kani_quick=[], kani_thorough=[],
+        verus=['mask', 'mask_parser', 'comments', 'comments_doc', 'lhs_masker'], kani_quick=[], kani_thorough=[],
         rac=['prose_offsets', 'lhs_prose_offsets', 'html_prose_offsets', 'typst_prose_offsets'],
         unverified=[
             'BOUNDED ONLY: tree-sitter node selection + byte_spans_to_char_spans (str byte code), the Markdown byte/char bookkeeping, without_initiators (which characters count as comment markers), jsdoc::parse_line / mark_inline_tags; PROVED are the composition steps: parsers::Mask<M,P>::parse (tokens shifted into their chunk, in order, nothing outside the allowed spans emitted as text - given the Masker and inner-Parser contracts), the mask operations push_allowed / merge_whitespace_sep, and the line-based comment parsers Unit / Go / JsDoc / JavaDoc::parse + unit::parse_line (every line\'s tokens moved behind its comment markers and to the line\'s offset; result in bounds and ordered - given the inner-Parser contract)',
